@@ -10,6 +10,7 @@ REALS = ("ValueType is modelled by exact reals (type R): every 'equals its defin
          "the size and growth of IEEE rounding error is NOT decided by this check")
 
 UNITS = {
+    "ema": dict(tpl="ema.rs.tpl", doc="methods::{EMA, DMA, TMA, DEMA, TEMA, RMA, WSMA, TSI}"),
     "compose_ma": dict(tpl="compose_ma.rs.tpl", doc="methods::{TRIMA, HMA} by composition of the SMA/WMA contracts"),
     "st_dev": dict(tpl="st_dev.rs.tpl", doc="methods::StDev"),
     "vwma": dict(tpl="vwma.rs.tpl", doc="methods::VWMA"),
